@@ -23,6 +23,33 @@ CLAIMS = {
              'results and draw logs compared (T2); the property statement itself is evaluated on the code\'s outputs (oracle).',
         design='8/C08',
         note=TB),
+    'C09': dict(
+        level='proof',
+        technique='Coq proof (Permutation of inventories for every function and random outcome, induction over compositions and histories) + extracted-model differential check',
+        text='Coq theorems (Props/C09.v): every built-in transition function, action and random outcome preserves the inventory multiset '
+             '(held item + cells, status erased, Floor/empty hand left out) up to Permutation, except actuate_box on a faced Box which replaces '
+             'the box by its content; lifted by induction to every composition and history (shallow inventory without actuate_box, unwrapped '
+             'inventory with it); the complete pick-and-drop case analysis (only the front cell and the hand change, front cell inside the grid '
+             'and Floor/holdable, otherwise the state is unchanged); scenery never moves.  Tie: T1 flag tables + T2 on the pick-and-drop table, '
+             'corpus (edge wrap-around) and random states/compositions; the oracle counts the inventory on the real step.',
+        design='8/C09', note=TB),
+    'C10': dict(
+        level='proof',
+        technique='Coq proof (complete door case table, door/box frame for every function and outcome, key-use invariant by induction over histories) + extracted-model differential check',
+        text='Coq theorems (Props/C10.v): complete case table of actuate_door; door frame and box frame for every built-in function, action and '
+             'random outcome; keys kept / hand frame; one environment step of any composition changes a door only under ACTUATE, only to OPEN, '
+             'locked only with the key; all histories: a LOCKED door is found not locked only if some earlier step was ACTUATE holding a key of '
+             'its colour.  Tie: T2 on the full table (3 statuses x 5 colours x 9 held items x 4 headings x 8 actions), box table, random states.',
+        design='8/C10', note=TB),
+    'C11': dict(
+        level='proof',
+        technique='Coq proof over the choice tree of all random outcomes (Leaf: all-leaves and exists-leaf theorems) + complete outcome-tree comparison with the code on small layouts',
+        text='Coq theorems over the Rand choice tree (Props/C11.v): every outcome of move_obstacles is Ok, gives each obstacle exactly one turn '
+             '(Turns relation: move to an in-grid Floor 4-neighbour at its turn, stay only if none), final obstacle positions = the destinations, '
+             'pairwise distinct, everything else untouched; exact two-way unfolding of one turn, hence every free neighbour is possible; teleport: '
+             'every outcome is one of the other same-coloured telepods, each is possible, otherwise inert and drawing nothing.  Tie: recorded draws on '
+             'random layouts (result + draw log) and the COMPLETE outcome tree of the real code (ScriptedRng DFS) vs the model leaves on small layouts.',
+        design='8/C11', note=TB),
     'C18': dict(
         level='proof',
         technique='Coq proof over unbounded Z (group laws, linear isometric action, transform group, area image, grid rotation) + regenerated tables + differential check',
